@@ -4,6 +4,8 @@
 #include "ref.h"
 #include <ascon/hash.h>
 #include <ascon/xof.h>
+void cpp_hash(int a, const unsigned char *m, size_t n, unsigned char *out);
+void cpp_xof(int a, size_t declared, const unsigned char *m, size_t n, unsigned char *out, size_t outlen);
 
 static int A, pat, tier;
 static const char *nm(const char *base) { static char b[4][32]; static int i; i = (i + 1) & 3; snprintf(b[i], 32, "%s%s", base, A ? "a" : ""); return b[i]; }
@@ -59,6 +61,11 @@ static void plain(void)
         ref_xof(A, msg, inlen, e, 32);
         if (A) ascon_xofa(o, mp, inlen); else ascon_xof(o, mp, inlen);
         cmp(nm("xof:oneshot:xof"), o, e, 32, "inlen=%zu", inlen, 0, 0, 0);
+        /* the C++ classes: hash / hasha, xof / xofa and the fixed-length templates for 32 and 64 bytes */
+        memset(o, 0xAA, 32); cpp_xof(A, 0, msg, inlen, o, 32); cmp(nm("xof:cpp:xof"), o, e, 32, "inlen=%zu", inlen, 0, 0, 0);
+        memset(o, 0xAA, 32); ref_hash(A, msg, inlen, e); cpp_hash(A, msg, inlen, o); cmp(nm("hash:cpp:hash"), o, e, 32, "inlen=%zu", inlen, 0, 0, 0);
+        memset(o, 0xAA, 32); cpp_xof(A, 32, msg, inlen, o, 32); cmp(nm("xof:cpp-fixed-32:xof"), o, e, 32, "inlen=%zu", inlen, 0, 0, 0);
+        if (inlen < 200) { uint8_t e64[64], o64[64]; ref_xof_fixed(A, 64, msg, inlen, e64, 64); cpp_xof(A, 64, msg, inlen, o64, 64); hx_stat("evaluations", 1); if (memcmp(o64, e64, 64)) hx_fail(nm("xof:cpp-fixed-64:xof"), "differs from reference: inlen=%zu pat=%d", inlen, pat); }
         hx_free(o);
         /* all output lengths for this input; the reference stream is prefix-consistent by construction */
         int mo = (il <= 80 || il == maxin || il > maxin) ? maxout : 40;
